@@ -25,7 +25,32 @@ import (
 
 var bg = context.Background()
 
-type A struct{ N int }
+// A is the event type of the subscriptions. Its JSON form depends on N in a way that makes
+// decoding one event over the value of another visible: odd events carry two more members
+// (a number and a map with one entry named after N), even ones leave them out.
+type A struct {
+	N    int
+	Odd  int            `json:",omitempty"`
+	Tags map[string]int `json:",omitempty"`
+}
+
+func (a A) MarshalJSON() ([]byte, error) {
+	type wire A
+	w := wire{N: a.N}
+	if a.N%2 != 0 {
+		w.Odd, w.Tags = a.N, map[string]int{fmt.Sprint("t", a.N): a.N}
+	}
+	return json.Marshal(w)
+}
+
+// intact: the value is A{N} as published (live delivery) or as decoded from its own document
+func (a A) intact() bool {
+	if a.Odd == 0 && len(a.Tags) == 0 {
+		return true
+	}
+	return a.N%2 != 0 && a.Odd == a.N && len(a.Tags) == 1 && a.Tags[fmt.Sprint("t", a.N)] == a.N
+}
+
 type B struct{ N int }
 
 var ids = []string{"id1", "id2"}
@@ -373,6 +398,9 @@ func (w *world) subscribe(i int) {
 		seenHere++
 		if first && seenHere == w.subCancel {
 			cancel()
+		}
+		if !e.intact() {
+			w.bad("%s was handed an event whose content is not what was published (members of another event of the same replay in it)", ids[i])
 		}
 		w.got[i] = append(w.got[i], deliv{n: e.N, run: w.run, saved: w.maxSv[i]})
 		// positions saved so far are tracked eagerly so that "was its position
@@ -949,6 +977,8 @@ func schedScenarios(thorough bool) []vrt.Scenario {
 		{Name: "live-sequential-sub-2-publishers", New: func() vrt.Instance { return &linst{seq: true} }},
 		{Name: "swr-vs-1-publish", New: func() vrt.Instance { return &sinst{pubs: 1} }},
 		{Name: "swr-vs-2-publishes", New: func() vrt.Instance { return &sinst{pubs: 2} }},
+		{Name: "two-ids-replay-from-different-offsets", New: func() vrt.Instance { return &tinst{} }},
+		{Name: "two-ids-replay-from-different-offsets-nested", New: func() vrt.Instance { return &tinst{nested: true} }},
 	}
 	if thorough {
 		l = append(l, vrt.Scenario{Name: "swr-vs-2-publishers", New: func() vrt.Instance { return &sinst{pubs: 1, twoPub: true} }})
